@@ -13,7 +13,7 @@ From Coq Require Import List Arith NArith ZArith Lia.
 From Lal Require Import Common.LBytes Common.Res
   Rtp.RtpSeqArith Rtp.RtpPacker Rtp.RtpUnpacker Rtp.RtpReorder Rtp.RtpSpec Rtp.RtpFrames Rtp.RtpReorderAbs
   Rtp.RtpSeqProofs Rtp.RtpPackerProofs Rtp.RtpUnpackerProofs Rtp.RtpSpecProofs
-  Rtp.RtpReorderAbsProofs Rtp.RtpReorderProofs Rtp.RtpStreamProofs Rtp.RtpRoundtripProofs.
+  Rtp.RtpReorderAbsProofs Rtp.RtpReorderProofs Rtp.RtpStreamProofs Rtp.RtpRoundtripProofs Rtp.RtpFreshProofs Rtp.RtpSizeProofs.
 Import ListNotations.
 Open Scope N_scope.
 
@@ -89,6 +89,18 @@ Theorem c12_pack_unpack : forall c nal maxp rate s ts pls,
              [(ts / (rate / 1000), avcc nal)].
 Proof. exact video_frame_good. Qed.
 Print Assumptions c12_pack_unpack.
+
+(* the same through the container as created (doneSeqFlag = false), packets
+   fed in order: unpack_inorder (pack nal) = [avcc nal], as long as the NAL
+   needs no more packets than the list can hold *)
+Theorem c12_pack_unpack_container : forall c nal maxp rate w s ts pls,
+  fu_hdr_size c < maxp -> nal_ok c nal -> rate_ok rate -> s < 65536 ->
+  pack_nal true c nal maxp = Ok pls ->
+  (Z.of_nat (length pls) <= w)%Z -> N.of_nat (length pls) <= 32768 ->
+  feed_all (proto_of_codec c) rate w c_init (map upkt_arrival (mk_upkts (proto_of_codec c) s ts pls))
+  = Ok (mk_cstate [] 0 true (seq_add s (lenN pls - 1)), [(ts / (rate / 1000), avcc nal)]).
+Proof. exact video_inorder_fresh. Qed.
+Print Assumptions c12_pack_unpack_container.
 
 (* the independent RFC 6184 / RFC 7798 depacketisers return the unit *)
 Theorem c12_pack_unpack_rfc6184 : forall nal maxp pls,
@@ -193,6 +205,36 @@ Theorem c12_inorder : forall pr rate w d s,
 Proof. exact stream_inorder. Qed.
 Print Assumptions c12_inorder.
 
+(* container as created: the first frame in order primes it, then any
+   admissible schedule over the rest of the stream *)
+Theorem c12_reorder_fresh : forall pr rate w s0 F o s sched,
+  frame_good pr rate F o ->
+  (forall i, (i < length F)%nat -> u_seq (nth i F dummy_upkt) = seq_add s0 (N.of_nat i)) ->
+  Forall (fun p => calc_position pr (u_body p) = Ok (u_pos p)) F ->
+  (Z.of_nat (length F) <= w)%Z -> N.of_nat (length F) <= 32768 ->
+  let d := u_seq (last F dummy_upkt) in
+  d < 65536 -> stream_wf pr rate d s -> sched_ok w (init_astate s) sched ->
+  feed_all pr rate w c_init (map upkt_arrival F ++ map (fun i => upkt_arrival (pkt_at s i)) sched)
+  = Ok (img d (pkt_at s) (fst (arun (init_astate s) sched)), o ++ snd (arun (init_astate s) sched)).
+Proof. exact stream_fresh. Qed.
+Print Assumptions c12_reorder_fresh.
+
+(* Pack in AVCC mode (several NAL units per AvPacket, access unit delimiters
+   skipped): its payloads, and the packets RtpPacker.Pack makes of them, are
+   the packets of the NAL-level unit stream of c12_reorder_video *)
+Theorem c12_pack_frames_is_stream : forall c pt rate ssrc maxp frames s,
+  fu_hdr_size c < maxp -> s < 65536 ->
+  Forall (fun f => pack_video_frame true c (snd f) maxp = Ok (frame_payloads c maxp (snd f))) frames /\
+  map arrival_of (concat (fst (rtp_pack_stream pt rate ssrc s
+                                 (map (fun f => (fst f, frame_payloads c maxp (snd f))) frames))))
+  = map upkt_arrival (pkts (unit_stream (proto_of_codec c) s (frames_units c maxp rate frames))).
+Proof.
+  intros c pt rate ssrc maxp frames s Hh Hs. split.
+  - apply Forall_forall. intros f _. apply pack_video_frame_payloads. assumption.
+  - apply (pack_frames_arrivals c pt rate ssrc maxp []). assumption.
+Qed.
+Print Assumptions c12_pack_frames_is_stream.
+
 (* instantiation with lal's video packer: any list of (rtp timestamp, NAL) *)
 Theorem c12_reorder_video : forall c maxp rate w d nals sched,
   fu_hdr_size c < maxp -> rate_ok rate -> d < 65536 ->
@@ -246,3 +288,50 @@ Proof.
     clear. induction frames as [|tn t IH]; [reflexivity|]. cbn [map concat raw_unit snd app]. f_equal. exact IH.
 Qed.
 Print Assumptions c12_reorder_audio.
+
+(* ------------------------------------------------------------------------ *)
+(* the list invariant (DESIGN A.3, first half) for EVERY arrival sequence of
+   every protocol, hostile packets included: RtpPacketList.Size is the length
+   of the list, so Full() means what it says.  False on the pinned tree for
+   fragmented AAC access units (one packet too few subtracted): after a few
+   such units Full() was permanently true and a swap of two packets inside the
+   window dropped a frame (witness in design.d/C12.md, replayed on Go). *)
+Theorem c12_size_invariant : forall pr rate w arr st o,
+  feed_all pr rate w c_init arr = Ok (st, o) -> c_size st = Z.of_nat (length (c_items st)).
+Proof. intros pr rate w arr st o H. exact (feed_all_size pr rate w arr c_init st o eq_refl H). Qed.
+Print Assumptions c12_size_invariant.
+
+Theorem c12_size_invariant_pinned_refuted :
+  exists l o sq rest dec,
+    aac_frag 44100 10 1024 0
+      [mk_upkt 1 1024 [0; 16; 0; 80; 238; 255; 0; 17; 34; 51] 0] [[170; 187; 204; 221]] 4 0%Z
+      = Ok (Some (o, sq, rest, dec)) /\
+    l = [mk_upkt 0 1024 [0; 16; 0; 80; 170; 187; 204; 221] 0; mk_upkt 1 1024 [0; 16; 0; 80; 238; 255; 0; 17; 34; 51] 0] /\
+    (Z.of_nat (length l) - dec <> Z.of_nat (length rest))%Z.
+Proof. exact aac_frag_pinned_refuted. Qed.
+Print Assumptions c12_size_invariant_pinned_refuted.
+
+(* ------------------------------------------------------------------------ *)
+(* non-vacuity: a two-layer HEVC NAL (LayerId/TID byte 0xA3) split into three
+   FU packets across the 65535 -> 0 wrap, followed by a single NAL, arriving
+   as 0,2,1,1,3,0 (swap, duplicate, stale repeat) with a window of 4 *)
+Example c12_nonvacuous :
+  let nals := [(90, [38; 163; 1; 2; 3; 4; 5; 6; 7; 8]); (180, [2; 1; 9])] in
+  let s := unit_stream PHevc (seq_succ 65534) (map (video_unit Hevc 6 90000) nals) in
+  let sched := [0; 2; 1; 1; 3; 0]%nat in
+  Forall (fun tn => nal_ok Hevc (snd tn)) nals /\ rate_ok 90000 /\
+  length (pkts s) = 4%nat /\ map u_seq (pkts s) = [65535; 0; 1; 2] /\
+  sched_ok 4 (init_astate s) sched /\
+  (forall i, (i < length (pkts s))%nat -> In i sched) /\
+  feed_all PHevc 90000 4 (primed 65534) (map (fun i => upkt_arrival (pkt_at s i)) sched)
+  = Ok (mk_cstate [] 0 true 2, [(1, [0; 0; 0; 10; 38; 163; 1; 2; 3; 4; 5; 6; 7; 8]); (2, [0; 0; 0; 3; 2; 1; 9])]).
+Proof.
+  cbv zeta. split.
+  { repeat constructor; cbn; (discriminate || lia || reflexivity). }
+  split; [unfold rate_ok; lia|]. split; [vm_compute; reflexivity|]. split; [vm_compute; reflexivity|].
+  split.
+  { vm_compute. repeat split; (lia || reflexivity). }
+  split; [|vm_compute; reflexivity].
+  intros i Hi. change (length _) with 4%nat in Hi.
+  destruct i as [|[|[|[|i]]]]; cbn; try lia; tauto.
+Qed.
